@@ -5,6 +5,7 @@ package main
 
 import (
 	"fmt"
+	"os"
 	"sort"
 	"strings"
 	"time"
@@ -400,6 +401,17 @@ func (in *Interp) decideAssert(cond *Term, msg string, kind string) {
 		for _, c := range conj {
 			in.cs.AssertQueries++
 			res, vals := in.checkStrong([]*Term{in.tb.Not(c), notListed})
+			if res == Sat && os.Getenv("SYMGO_DEBUGVIOL") != "" {
+				m := NewModel(vals)
+				fmt.Fprintf(os.Stderr, "DEBUGVIOL %s: conjunct %s\n  eval(conjunct)=%d\n", msg, c.String(), m.Eval(c))
+				for i, p := range in.pc {
+					fmt.Fprintf(os.Stderr, "  pc[%d] eval=%d %s\n", i, m.Eval(p), p.String())
+				}
+				for _, v := range in.inputs {
+					fmt.Fprintf(os.Stderr, "  %s=%d", v.name, m.Eval(v))
+				}
+				fmt.Fprintln(os.Stderr)
+			}
 			if res == Sat {
 				in.recordViolation(NewModel(vals), msg, kind, site, nil)
 				proved = false
